@@ -29,7 +29,8 @@
 EXTENDS Naturals, Sequences, FiniteSets, TLC, Json
 
 CONSTANTS BugGlobDirLevel,   \* TRUE: directories matched by a glob URL inherit its level (the seeded fault)
-          Space              \* which scenario space Init enumerates: "quick" | "full" | "none"
+          Space,             \* which scenario space Init enumerates: "quick" | "full" | "none"
+          RejByChar          \* TRUE: -R is not split at commas (see RejSuffixes); detected by the driver
 
 Range(f) == {f[i] : i \in DOMAIN f}
 MinOf(S) == CHOOSE x \in S : \A y \in S : x <= y
@@ -209,9 +210,11 @@ U(p, slash) == [p |-> p, slash |-> (slash \/ p = <<>>)]
 UrlDir(u) == IF u.slash THEN u.p ELSE Par(u.p)
 UName(u)  == IF u.slash \/ u.p = <<>> THEN "" ELSE Last(u.p)
 
-\* -R lacks type=comma_list in wpull/application/options.py: BackwardFilenameFilter iterates over the CHARACTERS of
-\* the option string (over-restrictive, hence harmless for C02; the model describes the code as it is)
-RejChars(o) == UNION {{Ch(s, i) : i \in 1..Len(s)} : s \in Range(o.rej)} \cup (IF Len(o.rej) > 1 THEN {","} ELSE {})
+\* -R lacks type=comma_list in wpull/application/options.py: BackwardFilenameFilter then iterates over the CHARACTERS
+\* of the option string (over-restrictive, hence harmless for C02; the model describes the code as it is)
+RejSuffixes(o) == IF RejByChar
+                  THEN UNION {{Ch(s, i) : i \in 1..Len(s)} : s \in Range(o.rej)} \cup (IF Len(o.rej) > 1 THEN {","} ELSE {})
+                  ELSE Range(o.rej)
 
 \* the filter list of wpull/application/tasks/rule.py as the options of the scenarios build it, on a URL record
 ImplVerdict(s, rec) ==
@@ -228,7 +231,7 @@ ImplVerdict(s, rec) ==
      /\ ~\E d \in Range(o.exc) : IsPrefix(d, u.p)
      /\ \/ nm = ""                                                                \* BackwardFilenameFilter
         \/ /\ (o.acc = <<>> \/ \E x \in Range(o.acc) : EndsWith(nm, x))
-           /\ ~\E c \in RejChars(o) : EndsWith(nm, c)
+           /\ ~\E c \in RejSuffixes(o) : EndsWith(nm, c)
 
 IdleW == [pc |-> "idle", i |-> 0, rp |-> <<>>, rslash |-> FALSE, isfile |-> FALSE, pat |-> "", st |-> "", kids |-> <<>>]
 
